@@ -26,13 +26,14 @@ Theorem C19_line_classes : forall ndep nattr li,
 Proof. exact classify_tail. Qed.
 Print Assumptions C19_line_classes.
 
-(* Declared = actual: if no printed header field contains a newline, the output is exactly N - 1
-   header lines, the last being the names line, followed by the data rows; N = attrs + vars + 15.
-   All files, any number of variables / attributes / records. *)
+(* Declared = actual, for ANY attribute values (the repaired writer prints them on one line): if no
+   other printed field (fixed lines, names, units, codes, attribute keys) contains a newline, the output
+   is exactly N - 1 header lines, the last being the names line, followed by the data rows;
+   N = attrs + vars + 15.  All files, any number of variables / attributes / records. *)
 Theorem C19_header_count_exact : forall f n ls ind sd,
   impl_write f = Some (n, ls) ->
   indep_name f = Some ind -> get_attr (s2z "SDATE") (f_attrs f) = Some sd ->
-  forallb no_nl (hdr_strings f ind sd) = true ->
+  forallb no_nl (hdr_other f ind sd) = true ->
   exists rows, ls = map PT (hdr_strings f ind sd) ++ map PR rows
     /\ Z.of_nat (length (hdr_strings f ind sd)) + 1 = n
     /\ n = Z.of_nat (length (myattrs f)) + Z.of_nat (length (depvars ind f)) + 15
@@ -40,8 +41,7 @@ Theorem C19_header_count_exact : forall f n ls ind sd,
 Proof. exact header_count_exact. Qed.
 Print Assumptions C19_header_count_exact.
 
-(* A count that is one short (a newline inside an attribute value) turns the last attribute line
-   into the names line. *)
+(* Why the count matters: a count that is one short turns the last attribute line into the names line. *)
 Theorem C19_count_off_by_one : forall ndep nattr, 0 <= ndep -> 1 <= nattr ->
   classify (nattr + ndep + 15) ndep 0 (nattr + ndep + 15) = K_names
   /\ classify (nattr + ndep + 15) ndep 0 (nattr + ndep + 14) = K_user
@@ -49,13 +49,10 @@ Theorem C19_count_off_by_one : forall ndep nattr, 0 <= ndep -> 1 <= nattr ->
 Proof. exact classify_off_by_one. Qed.
 Print Assumptions C19_count_off_by_one.
 
-(* FULL statement "the output re-opens for any set of header attributes" is false of the faithful
-   model: a value with a newline makes the output unreadable
-   (the names line becomes a data row of NaN, which the time conversion rejects). *)
-Theorem C19_header_count_refuted : exists f,
-  in_quant f = true /\ region_of f = 2%nat /\ impl_roundtrip f = None.
-Proof. exists w_newline. vm_compute. repeat split; reflexivity. Qed.
-Print Assumptions C19_header_count_refuted.
+(* an attribute value never contributes a line break *)
+Theorem C19_attr_value_one_line : forall v, no_nl (one_line v) = true.
+Proof. exact one_line_no_nl. Qed.
+Print Assumptions C19_attr_value_one_line.
 
 (* ---- single header lines: print then parse, for all contents ------------------------------- *)
 
@@ -73,6 +70,20 @@ Theorem C19_names_line : forall names,
   parse_names (join sep names) = names.
 Proof. exact parse_names_print. Qed.
 Print Assumptions C19_names_line.
+
+(* missing codes (and scale factors), any number of variables: every token and its value come back, so
+   len(missing) = number of dependent variables - the quantity that positions every later header line *)
+Theorem C19_codes_line : forall toks a,
+  forallb clean_code (a :: toks) = true ->
+  eval_list (join sep (a :: toks)) = Some (map (fun t => (t, code_of t)) (a :: toks)).
+Proof. exact eval_list_print. Qed.
+Print Assumptions C19_codes_line.
+
+Theorem C19_codes_count : forall toks a,
+  forallb clean_code (a :: toks) = true ->
+  exists ms, eval_list (join sep (a :: toks)) = Some ms /\ length ms = length (a :: toks).
+Proof. exact eval_list_length. Qed.
+Print Assumptions C19_codes_count.
 
 Theorem C19_user_line : forall k v,
   has_char cCOLON k = false -> stripped k = true ->
@@ -97,80 +108,60 @@ Print Assumptions C19_values_canonical.
 
 (* ---- masks --------------------------------------------------------------------------------- *)
 
-(* One cell through writer and reader: if the masked array's fill value prints as the code the
-   reader will compare with, and the cell's own value does not print like the code, the mask is
-   kept and the value is the 7-digit rendering. *)
-Theorem C19_cell_roundtrip_partial : forall code fill c,
-  dec_eqb (fmt6e fill) code = true ->
+(* One cell through writer and reader.  The repaired writer fills masked cells with the variable's
+   missing code, whatever the array's own fill_value: if that code is itself a 7-digit decimal and the
+   cell's value does not print like the code, the mask is kept and the value is the 7-digit rendering. *)
+Theorem C19_cell_roundtrip_partial : forall code c,
+  canon7 code = true ->
   (forall d, c = Some d -> dec_eqb (fmt6e d) code = false) ->
-  cell_rt code fill c = spec_cell c.
-Proof. exact cell_rt_spec. Qed.
+  cell_rt code code c = spec_cell c.
+Proof. exact cell_rt_canon. Qed.
 Print Assumptions C19_cell_roundtrip_partial.
 
 (* "any missing-value codes" is false: a code with more than seven digits loses every mask *)
 Theorem C19_mask_long_code_refuted : exists f,
-  in_quant f = true /\ region_of f = 3%nat /\ rt_ok f = false.
+  in_quant f = true /\ region_of f = 2%nat /\ rt_ok f = false.
 Proof. exists w_longcode. vm_compute. repeat split; reflexivity. Qed.
 Print Assumptions C19_mask_long_code_refuted.
 
-(* a masked variable whose fill_value differs from its missing_value attribute loses its mask *)
-Theorem C19_mask_fill_refuted : exists f,
-  in_quant f = true /\ region_of f = 3%nat /\ rt_ok f = false.
-Proof. exists w_fill. vm_compute. repeat split; reflexivity. Qed.
-Print Assumptions C19_mask_fill_refuted.
-
 (* "any finite values" is false: an unmasked value that prints like the code comes back masked *)
 Theorem C19_value_collision_refuted : exists f,
-  in_quant f = true /\ region_of f = 4%nat /\ rt_ok f = false.
+  in_quant f = true /\ region_of f = 3%nat /\ rt_ok f = false.
 Proof. exists w_collide. vm_compute. repeat split; reflexivity. Qed.
 Print Assumptions C19_value_collision_refuted.
 
 (* ---- units / codes of the independent variable, tokens ------------------------------------- *)
 
-Theorem C19_indep_meta_refuted : exists f r,
+(* the units of the independent variable survive (line 9 now carries them); its missing code cannot:
+   the ICARTT header has no place for it and the reader substitutes the first dependent variable's *)
+Theorem C19_indep_code_refuted : exists f r,
   in_quant f = true /\ region_of f = 1%nat /\ impl_roundtrip f = Some r /\ rt_ok f = false
-  /\ map r_units (firstn 1 (r_vars r)) = [s2z "t"] /\ map r_code_s (firstn 1 (r_vars r)) = [s2z "-9999"].
+  /\ map r_units (firstn 1 (r_vars r)) = [s2z "s"] /\ map r_code_s (firstn 1 (r_vars r)) = [s2z "-9999"].
 Proof. exists w_indep. eexists. vm_compute. repeat split; reflexivity. Qed.
-Print Assumptions C19_indep_meta_refuted.
-
-Theorem C19_lod_flag_refuted : exists f,
-  in_quant f = true /\ region_of f = 6%nat /\ impl_roundtrip f = None.
-Proof. exists w_lod. vm_compute. repeat split; reflexivity. Qed.
-Print Assumptions C19_lod_flag_refuted.
+Print Assumptions C19_indep_code_refuted.
 
 Theorem C19_name_slash_refuted : exists f,
-  in_quant f = true /\ region_of f = 7%nat /\ rt_ok f = false.
+  in_quant f = true /\ region_of f = 4%nat /\ rt_ok f = false.
 Proof. exists w_slash. vm_compute. repeat split; reflexivity. Qed.
 Print Assumptions C19_name_slash_refuted.
 
 Theorem C19_unit_comma_refuted : exists f,
-  in_quant f = true /\ region_of f = 7%nat /\ rt_ok f = false.
+  in_quant f = true /\ region_of f = 4%nat /\ rt_ok f = false.
 Proof. exists w_unit_comma. vm_compute. repeat split; reflexivity. Qed.
 Print Assumptions C19_unit_comma_refuted.
 
 (* ---- auto-detection ------------------------------------------------------------------------ *)
 
-Theorem C19_autodetect_partial : forall ls l,
-  find is_level_line (firstn 99 ls) = None -> nth_error ls 26 = Some l ->
-  zip_all_eq l100_names (pline_words l) = false -> impl_detect ls = R_ffi1001.
-Proof. exact detect_long. Qed.
-Print Assumptions C19_autodetect_partial.
+(* The l100 reader (asked first) claims a file only if one of its first 100 lines carries the eight
+   L100 column names as its first eight tokens; otherwise ffi1001 is selected - for every length. *)
+Theorem C19_autodetect : forall ls,
+  forallb (fun l => negb (claims l)) (firstn 99 ls) = true -> impl_detect ls = R_ffi1001.
+Proof. exact detect_ffi. Qed.
+Print Assumptions C19_autodetect.
 
-(* every output with fewer than 28 lines is claimed by the l100 reader *)
-Theorem C19_autodetect_short : forall ls,
-  find is_level_line (firstn 99 ls) = None -> (length ls < 27)%nat -> impl_detect ls = R_l100.
-Proof. exact detect_short. Qed.
-Print Assumptions C19_autodetect_short.
-
-Theorem C19_autodetect_refuted : exists f,
-  in_quant f = true /\ region_of f = 5%nat /\ rt_ok f = true /\ detect_ok f = false.
-Proof. exists w_short. vm_compute. repeat split; reflexivity. Qed.
-Print Assumptions C19_autodetect_refuted.
-
-Theorem C19_autodetect_level_refuted : exists f,
-  in_quant f = true /\ region_of f = 5%nat /\ rt_ok f = true /\ detect_ok f = false /\ 28 <= total_lines f.
-Proof. exists w_level. vm_compute. repeat split; try reflexivity. discriminate. Qed.
-Print Assumptions C19_autodetect_level_refuted.
+Theorem C19_few_tokens_not_claimed : forall l, (length (pline_words l) < 8)%nat -> claims l = false.
+Proof. exact few_tokens_not_claimed. Qed.
+Print Assumptions C19_few_tokens_not_claimed.
 
 (* ---- second cycle -------------------------------------------------------------------------- *)
 
@@ -180,21 +171,30 @@ Print Assumptions C19_print_idempotent.
 
 (* a cell that went through one cycle is unchanged by the next (value and mask), for every code
    that is itself a 7-digit decimal *)
-Theorem C19_second_cycle_cell_partial : forall code c, canon7 code = true ->
+Theorem C19_second_cycle_cell_partial : forall code w c, canon7 code = true ->
   let back := fun x => match x with CV d => Some d | _ => None end in
-  forall fill, cell_rt code fill c = CM \/ (exists d, cell_rt code fill c = CV d) ->
-  cell_rt code code (back (cell_rt code fill c)) = cell_rt code fill c.
+  cell_rt code code (back (cell_rt code w c)) = cell_rt code w c.
 Proof. exact cell_second. Qed.
 Print Assumptions C19_second_cycle_cell_partial.
 
-(* UNPROVED (DESIGN 8.1 rung 3): the composition over whole files,
+(* UNPROVED (DESIGN 8.1 rung 3), tried again after the repairs and not closed in the time box: the
+   composition over whole files,
      forall f, dom f = true -> rt_ok f = true /\ second_ok f = true /\ detect_ok f = true,
    i.e. run_header executed symbolically over the writer's output for arbitrary numbers of variables
-   and attributes.  Proved instead: the line classification for all counts (C19_line_classes, C19_line_classes_head), the
-   exact header count (C19_header_count_exact), each line parser (C19_desc_line, C19_names_line,
-   C19_user_line), each cell (C19_cell_roundtrip_partial, C19_second_cycle_cell_partial); the composition
-   is evaluated by vm_compute on the file below and compared with the library on every generated case. *)
+   and attributes (open sub-goals: no_nl (zstr z) through the stdlib decimal printer, and threading the
+   reader state through 14 + ndep + nattr calls of step).  Proved instead, each for all sizes: the line
+   classification (C19_line_classes, C19_line_classes_head), the exact header count for any attribute
+   values (C19_header_count_exact), every line parser (C19_desc_line, C19_names_line, C19_user_line,
+   C19_codes_line / C19_codes_count which fixes len(missing) = ndep), every cell (C19_cell_roundtrip_partial,
+   C19_second_cycle_cell_partial), auto-detection (C19_autodetect).  The composition is evaluated by
+   vm_compute on the files below and compared with the library on every generated case. *)
 Example C19_domain_inhabited :
   dom w_good = true /\ rt_ok w_good = true /\ second_ok w_good = true /\ detect_ok w_good = true
   /\ impl_roundtrip w_good <> None.
 Proof. vm_compute. repeat split; try reflexivity; discriminate. Qed.
+
+(* the repaired cases: newline in an attribute value, LLOD_FLAG alone, fill_value <> missing_value,
+   a 19-line output, an independent variable called Level - all inside the domain now *)
+Example C19_repaired_cases :
+  forallb (fun f => dom f && rt_ok f && second_ok f && detect_ok f) [w_newline; w_lod; w_fill; w_short; w_level] = true.
+Proof. vm_compute. reflexivity. Qed.
